@@ -61,7 +61,7 @@ impl Property for C14 {
         "Rules classified on the generator's AST (not by asca's parser): segment-only = 1-3 segment-matching input elements (IPA, matrix, group, set; no length/stress/tone parameters) with as many outputs, all matrices of segmental features/nodes (alphas allowed) or all plain IPA; \
          prosody-only = `%`/segment input with an output matrix of [±stress]/[±sec.stress]/[tone:n] only, `$ > *`, `* > $ / X _ Y(Z)`, `$X > &`, `X$ > &`. Environments and exceptions come from the full grammar (sets, optionals, ellipses, structures, syllables, variables, alphas, env sets). \
          Words: 1-4 syllables with stress, tone and long segments, 30% rich pool. Oracle on Ok results: segment-only ⇒ number of syllables, stress vector and tone vector unchanged (and segments per syllable unchanged when the outputs are matrices and no two equal segments are adjacent inside a syllable before or after); \
-         prosody-only ⇒ the flattened sequence of bundles unchanged. Non-trivial: the rule changed the word. Quick 4M, thorough 40M.".into()
+         prosody-only ⇒ the flattened sequence of bundles unchanged. One case in five applies two or three rules of the same class in one run. Non-trivial: the rule(s) changed the word. Quick 4M, thorough 40M.".into()
     }
     fn explore(&self, ctx: &mut Ctx) {
         let n = ctx.tier.pick(4_000_000, 40_000_000);
@@ -71,6 +71,17 @@ impl Property for C14 {
             let word = gw.text();
             let Ok(Ok(pw)) = api::parse_word(&word) else { return None };
             let segs = word_segs(&pw);
+            // one case in five: two or three rules of the same class in one run (the tier that each of them must not touch stays untouched by the sequence;
+            // what a rule leaves behind inside the word — not only what it prints — is what the next rule works on)
+            if t.chance(1, 5) {
+                let seg_class = t.chance(1, 3);
+                let k = 2 + t.pick(2);
+                let mut rules = vec![]; let mut classes = vec![];
+                for _ in 0..k { let (r, c) = if seg_class { seg_only_rule(t, segs.clone()) } else { prosody_rule(t, segs.clone()) }; rules.push(rule_text(&r)); classes.push(c); }
+                let class = if seg_class { if classes.iter().all(|c| c.ends_with("matrices")) { "segment-only:sequence:matrices" } else { "segment-only:sequence" } } else { "prosody:sequence" };
+                let typed: Vec<(u8, u16)> = gw.sylls.iter().map(|s| (s.stress, s.tone)).collect();
+                return Some(json!({"rule": rules[0], "rules": rules, "word": word, "class": class, "classes": classes, "typed_prosody": typed}));
+            }
             let (r, class) = if t.chance(1, 2) { seg_only_rule(t, segs) } else { prosody_rule(t, segs) };
             // the stress and tone of every syllable as the word was typed (the generator's own record, independent of asca's word reader)
             let typed: Vec<(u8, u16)> = gw.sylls.iter().map(|s| (s.stress, s.tone)).collect();
@@ -81,7 +92,8 @@ impl Property for C14 {
         let rule = case["rule"].as_str().unwrap_or(""); let word = case["word"].as_str().unwrap_or(""); let class = case["class"].as_str().unwrap_or("");
         let w = match api::parse_word(word) { Ok(Ok(w)) => w, _ => return Outcome::skip("word does not parse") };
         let mw = MWord::from_asca(&w);
-        match api::apply_rules(&[rule.to_string()], &w) {
+        let rules: Vec<String> = match case["rules"].as_array() { Some(rs) => rs.iter().filter_map(|r| r.as_str().map(|x| x.to_string())).collect(), None => vec![rule.to_string()] };
+        match api::apply_rules(&rules, &w) {
             Err(_) => Outcome::skip("call did not return (C02's business)"),
             Ok(Err(e)) => Outcome::skip(&format!("Err:{}", api::err_variant(&e))),
             Ok(Ok(g)) => {
